@@ -199,17 +199,22 @@ for _pid, (_t, _k) in EXTRA.items():
 EXTRA2 = {
     "C01": (" Third round: match-or-bind in the scan layer, GRAPH ?g visits every visible named graph, both ORDER BY comparators are lexicographic over "
             "all keys, and the solution sequence is cut only by the finalizers or under a guard that consults order, distinct, grouping and projection.",
-            ", lookup-before-bind dominance, early-cut guard analysis"),
+            ", lookup-before-bind dominance, early-cut guard analysis; last round: a scan whose graph variable is unbound consults the active graph (subquery inside "
+            "GRAPH ?g, fixed), the FILTER evaluators are three-valued and never compare a non-number as a number (fixed), a floating-point sum is never "
+            "formatted as it is (fixed), and the Filter arm is reported for evaluating conditions on rows that carry outer bindings (known finding)"),
     "C02": (" Third round: the star plan accounts for every pattern of its join group and the plan memo stores under a node's key only plans derived from that node.",
             ", flow-aware def-use of memo stores"),
     "C04": (" Third round: the across-named-graphs reader takes its graphs from the catalog or filters a visible set to named, existing graphs.", ""),
-    "C05": (" Third round: the rule join's hash table keeps every partial binding and every bucket index is probed.", ""),
+    "C05": (" Third round: the rule join's hash table keeps every partial binding and every bucket index is probed; a driver that runs the rules with "
+            "negation in a pass of their own must feed its conclusions back (known finding: single pass, no stratification).", ", driver loop analysis"),
     "C07": (" Third round: only the canonicalising path may call the raw decision-node constructor, unique_d and compress.", ", who-may-call"),
     "C08": (" Third round: a seen-set that prunes proof-search states is keyed on the proof and the pending conjuncts.", ", memo-key completeness"),
     "C09": (" Third round: writer set of active_windows / app_time.", ", writer-set analysis"),
     "C11": (" Third round: data of a received window result is filed under that result's own window.", ""),
     "C12": (" Third round: every carried-over and every new fact is inserted into the reasoner's index.", ""),
-    "C13": (" Third round: both term cleaners treat a literal's suffix alike (defect fixed) and the language-tag class accepts digits.", ", sibling agreement"),
+    "C13": (" Third round: both term cleaners treat a literal's suffix alike (defect fixed) and the language-tag class accepts digits; no loader cuts lines at "
+            "a plain search for `#`, every text loader reaches a literal decoder (two known findings in parse_n3), and the RDF/XML loaders emit a literal "
+            "at the end of the property element from accumulated text and entity references (defect fixed).", ", sibling agreement, event-dispatch arm analysis"),
     "C14": (" Third round: the Turtle writer breaks lines only after a statement terminator (defect fixed), cleaned terms are never interpreted as surface "
             "syntax again (decode once; five defects fixed), and the Turtle writer writes undelimited text only for quoted triples.",
             ", decode-once taint, writer/reader language agreement"),
@@ -277,7 +282,11 @@ def main():
         ],
         "checks": checks,
         "not_applicable": na,
-        "notes": "All checks are static (no repository code is executed). Exit 2 = /repo does not type-check (no verdict).",
+        "notes": "All checks are static (no repository code is executed). Exit 2 = /repo does not type-check (no verdict). "
+                 "No hooks were added to /repo. /repo carries unguarded `fix:` commits for genuine defects (listed as `fixed` with their "
+                 "commit in known_findings.json); after each of them the workspace suite was re-run in a scratch worktree: 405 tests pass, the "
+                 "only failure is `rsp_ql_dstream_semantics`, which already fails on the pinned tree. design-notes/probes/ holds the throw-away "
+                 "differential / model tests that pointed at those defects; they are not run by any check.",
     }
     json.dump(m, open(os.path.join(VERIF, "MANIFEST.json"), "w"), indent=1)
     print("MANIFEST.json: %d checks, %d not applicable" % (len(checks), len(na)))
